@@ -3,6 +3,7 @@ import RavenModel.Model.ListMatch
 import RavenModel.Model.SeqSet
 import RavenModel.Model.Flags
 import RavenModel.Model.Mail
+import RavenModel.Model.Lmtp
 /-! Line protocol: one op per line (`op arg …`, byte-string args hex encoded, `-` = empty, `.` = empty list),
 one canonical line out. Stateful ops (`m.*`) act on the driver's mailbox-machine state. -/
 open Raven
@@ -47,6 +48,30 @@ def opsC10 : List String → Option String
     | some mode => some (hexList (Flags.newFlags (GoStr.fields (unhex cur)) (unhexList new) mode))
     | none => none
   | ["fields", s] => some (hexList (GoStr.fields (unhex s)))
+  | _ => none
+
+/-- LMTP: `l.msgs` lists the messages the model assembles from a stream; `l.run` gives the reply codes when the messages
+listed as accepted are the parsable ones and a recipient is deliverable iff it has exactly one `@` -/
+def countAt (r : Bytes) : Nat := (r.filter (· = 64)).length
+
+def lmtpMsgs (cfg : Lmtp.Cfg) : Lmtp.St → List Bytes → List Bytes
+  | _, [] => []
+  | st, l :: ls =>
+    let env : Lmtp.Env := ⟨fun _ => true, fun _ _ => true⟩
+    let st' := (Lmtp.stepLine cfg env st l).1
+    match st.mode with
+    | .data acc _ false => if Lmtp.isTerm l && !st.quit then acc :: lmtpMsgs cfg st' ls else lmtpMsgs cfg st' ls
+    | _ => lmtpMsgs cfg st' ls
+
+def opsC16 : List String → Option String
+  | ["l.msgs", mx, mr, stream] =>
+    some (hexList (lmtpMsgs ⟨mx.toNat!, mr.toNat!⟩ Lmtp.St.init (Lmtp.lines (unhex stream))))
+  | "l.run" :: mx :: mr :: stream :: accepted =>
+    let acc := unhexList accepted
+    let env : Lmtp.Env := ⟨fun m => acc.contains m, fun _ r => countAt r = 1⟩
+    some (natList (Lmtp.run ⟨mx.toNat!, mr.toNat!⟩ env (unhex stream)))
+  | ["l.rcpt", a] => some (match Lmtp.parseRcptTo (unhex a) with | some t => "some " ++ hexOut t | none => "none")
+  | ["l.mail", a] => some (match Lmtp.parseMailFrom (unhex a) with | some t => "some " ++ hexOut t | none => "none")
   | _ => none
 
 /-! mailbox machine -/
@@ -142,7 +167,7 @@ def step (st : Mail.Store) (line : String) : Mail.Store × String :=
   match opsMail st args with
   | some r => r
   | none =>
-    match (opsC18 args <|> opsC09 args <|> opsC10 args) with
+    match (opsC18 args <|> opsC09 args <|> opsC10 args <|> opsC16 args) with
     | some r => (st, r)
     | none => (st, "bad-op")
 
